@@ -382,6 +382,30 @@ def numeric_part(r, np, PanthLikelihood, tier, only=None):
                                     "H^2 = %s, parameters %s, sample %s (%d redshifts): %s" % (fam["fstr"], list(p), sname, len(zs), text),
                                     {"kind": "numeric", "family": fam["name"], "params": list(p), "sample": sname, "tier": tier,
                                      "one_plus_z": zs if len(zs) <= 12 else "samples(tier)[%r] with VERIF_SEED=%d" % (sname, evidence.seed())})
+    # H^2 without a closed-form antiderivative (sympy factors a prefactor out of an unevaluated Integral): run_sympify must either
+    # report integrated=False, or hand back something the analytic path can evaluate and that agrees with the numerical path
+    if not only:
+        zp1 = np.array([1.0 + MAPS["A"][k] for k in (3, 1, 5, 2)], dtype=float)
+        for fstr, p in (("square(a0)*(x*x*x+a1)", (1.3, 0.4)), ("a0*(x+exp(x))", (0.7,)), ("inv(a0)*(x+exp(x))", (2.0,)), ("a0*x*x*x+a1", (0.3, 0.7)), ("x+exp(x)", ())):
+            nparam = len(p)
+            fcn, eq, flag = L.run_sympify(fstr, tmax=tmax, try_integration=False)
+            eq_num = lambdify_as_fit(sympy, (x, a0), fcn, eq, nparam)
+            L.clear_data()
+            mu_num = as_float_array(np, L.get_pred(zp1.copy(), np.array(p), eq_num, integrated=False))
+            fcn2, eq2, integrated = L.run_sympify(fstr, tmax=tmax, try_integration=True)
+            nev += 1
+            key = "analytic_unintegrable:%s" % fstr
+            if integrated:
+                try:
+                    eq_an = lambdify_as_fit(sympy, (x, a0), fcn2, eq2, nparam)
+                    mu_an = as_float_array(np, L.get_pred(zp1.copy(), np.array(p), eq_an, integrated=True))
+                    if not np.all(np.isfinite(mu_an)) or float(np.max(np.abs(mu_an - mu_num))) > 5e-3:
+                        r.violation(key, "H^2 = %s: run_sympify reports an analytic integral but its distance modulus %s differs from the numerical path %s" % (fstr, mu_an, mu_num),
+                                    {"kind": "numeric", "fstr": fstr})
+                except Exception as e:
+                    r.violation(key, "H^2 = %s: run_sympify(try_integration=True) reports integrated=True for %s, which the analytic path cannot evaluate: %r" % (fstr, eq2, e),
+                                {"kind": "numeric", "fstr": fstr})
+            integ["unintegrable:" + fstr] = bool(integrated)
     r.add("numeric", evaluations=nev, nontrivial=nontriv, analytic_path_cases=nan_paths, analytically_integrated=integ, per_family=worst)
     return integ
 
